@@ -24,6 +24,13 @@ func c08CloseOwnership(c *Ctx) {
 	c.expect("C08.e", 2)
 	pk := c.P.Pkg("ansi")
 	info := pk.TypesInfo
+	run := c.P.Func("ansi.(*Parser).run")
+	var pos token.Pos
+	if run != nil {
+		pos = run.Decl.Pos()
+	}
+	// the run loop = run and the functions only it calls (however the loop is cut into helpers)
+	owned := ansiPrivateTo(c, run)
 	n := 0
 	where := ""
 	for _, fi := range c.P.FuncsIn("ansi") {
@@ -33,34 +40,22 @@ func c08CloseOwnership(c *Ctx) {
 		ast.Inspect(fi.Decl.Body, func(x ast.Node) bool {
 			if u, ok := x.(*ast.UnaryExpr); ok && u.Op == token.ARROW && canonPath(info, u.X) == "Parser.close" {
 				n++
-				where = fi.Name
+				if !owned[fi.Obj] {
+					where = fi.Name
+				}
 			}
 			return true
 		})
 	}
-	run := c.P.Func("ansi.(*Parser).run")
-	var pos token.Pos
-	if run != nil {
-		pos = run.Decl.Pos()
-	}
-	c.check(n == 1 && where == "ansi.(*Parser).run", "C08.e", "ansi/close request received only in run", pos, "single receiver at the loop head",
+	c.check(n >= 1 && where == "", "C08.e", "ansi/close request received only in run", pos, "received only by the run loop (run and the functions only run calls)",
 		"the close request is also received in "+where+": the single token can be consumed elsewhere, run never sees it and the parser does not stop after Close")
 	em := c.P.Func("ansi.(*Parser).emit")
 	if em == nil {
 		c.undecided("C08.e", "ansi.(*Parser).emit", 0, "emit not found")
 		return
 	}
-	plain := len(em.Decl.Body.List) == 1
-	if plain {
-		s, ok := em.Decl.Body.List[0].(*ast.SendStmt)
-		plain = ok && canonPath(info, s.Chan) == "Parser.sequences"
-		if ok && plain {
-			if id, isId := s.Value.(*ast.Ident); !isId || info.ObjectOf(id) != info.Defs[em.Decl.Type.Params.List[0].Names[0]] {
-				plain = false
-			}
-		}
-	}
-	c.check(plain, "C08.e", em.Name+"/plain blocking send of its argument", em.Decl.Pos(), "emit never drops or reorders a sequence", "emit is no longer a plain `p.sequences <- seq`: a sequence can be dropped or the send can be abandoned")
+	plain, whyNot := c08IsPlainSend(c, em, "Parser.sequences", true)
+	c.check(plain, "C08.e", em.Name+"/plain blocking send of its argument", em.Decl.Pos(), "emit never drops or reorders a sequence", "emit is no longer a plain `p.sequences <- seq` ("+whyNot+"): a sequence can be dropped or the send can be abandoned")
 }
 
 func c02PrintConsultsUniseg(c *Ctx) {
@@ -132,7 +127,7 @@ func c08TimerArmedUnconditionally(c *Ctx) {
 				}
 				onlyByte := len(objs) > 0
 				for o := range objs {
-					if o != rObj {
+					if o != rObj && !c08DependsOnlyOn(info, o, rObj, 0) {
 						onlyByte = false
 					}
 				}
